@@ -97,12 +97,20 @@ def r5(repo, chk):
     names = []
     for st in tp.stmts(lambda s: isinstance(s, ast.For)):
         if isinstance(st.iter, (ast.List, ast.Tuple)) and all(isinstance(e, ast.Constant) for e in st.iter.elts):
-            body = " ; ".join(norm(b) for b in st.body)
             v = st.target.id if isinstance(st.target, ast.Name) else "?"
-            if f"getattr(quic_transport_parameters, 'initial_' + {v})" in body and f"setattr(self, '_remote_' + {v}, value)" in body:
-                names = [e.value for e in st.iter.elts]
-                guards_ok = all(norm(b.test) == "value is not None" for b in st.body if isinstance(b, ast.If))
-                ok = guards_ok
+            # value = getattr(params, "initial_" + v) [plain or walrus]; setattr(self, "_remote_" + v, value) under `value is not None`
+            gets = [n for n in ast.walk(st) if isinstance(n, ast.Call) and norm(n) == f"getattr(quic_transport_parameters, 'initial_' + {v})"]
+            sets = [n for n in ast.walk(st) if isinstance(n, ast.Call) and call_name(n) == "setattr" and len(n.args) == 3 and norm(n.args[0]) == "self" and norm(n.args[1]) == f"'_remote_' + {v}"]
+            if len(gets) == 1 and len(sets) == 1 and isinstance(sets[0].args[2], ast.Name):
+                val = sets[0].args[2].id
+                holder = getattr(gets[0], "_parent", None)
+                bound = (isinstance(holder, ast.Assign) and norm(holder.targets[0]) == val) or (isinstance(holder, ast.NamedExpr) and holder.target.id == val)
+                lg = tp.lexical_guards(sets[0], expand=False)
+                inner = [a_ for a_ in lg if a_ not in tp.lexical_guards(st, expand=False)]
+                tested = inner == [(f"{val} is not None", True)] or [a_[0] for a_ in inner] == [f"({val} := {norm(gets[0])}) is not None"]
+                if bound and tested:
+                    names = [e.value for e in st.iter.elts]
+                    ok = True
     chk.ob("R5", "_parse_transport_parameters copies initial_<x> to _remote_<x> under the same name x", ok, "the remote limit fields are no longer filled from the peer's parameter of the same name", tp.loc(tp.node))
     need = {"max_data", "max_stream_data_bidi_local", "max_stream_data_bidi_remote", "max_stream_data_uni", "max_streams_bidi", "max_streams_uni"}
     chk.ob("R5", "all six flow-control / stream-count parameters are copied", set(names) == need, f"copied: {sorted(names)}", tp.loc(tp.node))
@@ -184,16 +192,20 @@ def r1(repo, chk):
     frames = [c for c in g.calls(name="QuicStreamFrame") if get_kw(c, "data") is not None]
     clamps = [st for st, t, v in g.assigns(chain="stop") if norm(v) == "max_offset"]
     ok = len(clamps) == 1 and bool(frames)
+    top = None
     if ok:
         lg = g.lexical_guards(clamps[0], expand=False)
-        ok = ("max_offset is not None", True) in lg and natom("stop > max_offset") in lg and all(g.before(clamps[0]._parent, f) for f in frames)
+        top = clamps[0]
+        while getattr(top, "_parent", None) is not None and top._parent is not g.node:
+            top = top._parent  # the whole (possibly nested) conditional the clamp sits in
+        ok = ("max_offset is not None", True) in lg and natom("stop > max_offset") in lg and len(lg) == 2 and all(g.before(top, f) for f in frames)
     chk.ob("R1", "get_frame lowers `stop` to max_offset before any frame is built", ok, "data beyond the peer's limit can be framed", g.loc(g.node))
     for f in frames:
         d = norm(get_kw(f, "data"))
         ok = "stop - self._buffer_start" in d and "start - self._buffer_start" in d
         chk.ob("R1", "the frame carries exactly the bytes [start, stop)", ok, f"data `{d[:80]}`", g.loc(f))
     hs = [(st, v) for st, t, v in g.assigns(chain="self.highest_offset")]
-    ok = bool(hs) and all(norm(v) == "stop" and natom("stop > self.highest_offset") in g.lexical_guards(st, expand=False) and all(g.before(c._parent, st) for c in clamps) for st, v in hs)
+    ok = bool(hs) and all(norm(v) == "stop" and natom("stop > self.highest_offset") in g.lexical_guards(st, expand=False) and all(g.before(top if top is not None else c._parent, st) for c in clamps) for st, v in hs)
     chk.ob("R1", "get_frame advances highest_offset only to the clamped `stop`", ok, "", g.loc(g.node))
     others = []
     for m in repo.modules.values():
